@@ -60,7 +60,20 @@ fn generate(corpus: &Corpus, tier: Tier, run: u64, rng: &mut Rng) -> Option<Case
         let g = rng.pick(&prog.info.globals).clone();
         tail.insert(rng.below(tail.len()), Op::SetVar { name: g, val: crate::script::rand_val(rng) });
     }
-    let host = super::default_host(&prog, rng);
+    let mut host = super::default_host(&prog, rng);
+    if !host.bindings.is_empty() && !ops.is_empty() && rng.chance(2, 3) {
+        // one external left to its Ink fallback, and the permission for fallbacks withdrawn somewhere in the
+        // history: a fresh story refuses at its first continue, so a reset one must too
+        host.fallbacks = true;
+        let k = rng.below(host.bindings.len());
+        host.bindings.remove(k);
+        let at = rng.below(ops.len() + 1);
+        ops.insert(at, Op::SetFallbacks(false));
+        if rng.chance(1, 3) {
+            let at2 = at + 1 + rng.below(ops.len() - at);
+            ops.insert(at2, Op::SetFallbacks(true));
+        }
+    }
     Some(Case {
         prop: "C17".into(),
         run,
@@ -79,6 +92,9 @@ fn execute(case: &Case) -> CaseResult {
     let tail: Vec<Op> = serde_json::from_value(case.params["tail"].clone()).unwrap_or_default();
     let prog = &case.program;
     let h = &case.ops;
+    if h.iter().any(|o| matches!(o, Op::SetFallbacks(false))) {
+        res.stats.inc("probe.c17.fallbacks_withdrawn");
+    }
     let initial = match Host::new(prog, &case.host) {
         Ok(mut y) => y.observe(),
         Err(r) => {
